@@ -32,6 +32,7 @@ type c01Args struct {
 	Req      core.LoadReq `json:"req"`
 	Mode     string       `json:"mode,omitempty"`      // "" = loader.LoadWithContext | "model" = LoadModelWithContext | "cli" = cli.ProjectOptions.LoadProject
 	EnvFiles []string     `json:"env_files,omitempty"` // cli mode: explicit --env-file list (relative)
+	Delivery string       `json:"delivery,omitempty"`  // how the files reach the loader: "" = by name (read from disk) | "content" = bytes in memory | "config" = pre-parsed (loader.ParseYAML) | "config-shared" = pre-parsed, ONE map object handed in for every config file (aliasing on the heap; the loader merges in place)
 	Shape    string       `json:"shape"`               // input class (distribution, hang keys)
 	Expect   string       `json:"expect,omitempty"`    // "" | "ok" | "cycle:<kind>" | "missing:<kind>:<basename>[,<basename>…]"
 }
@@ -47,6 +48,37 @@ func realC01Load(raw json.RawMessage) any {
 	defer os.RemoveAll(root)
 	if err != nil {
 		return map[string]any{"bad": "materialize: " + err.Error()}
+	}
+	if a.Delivery != "" && a.Mode != "cli" {
+		details := a.Req.Details(root)
+		var shared map[string]any
+		for i := range details.ConfigFiles {
+			cf := &details.ConfigFiles[i]
+			content, err := os.ReadFile(cf.Filename)
+			if err != nil {
+				continue // a missing file stays a name
+			}
+			cf.Content = content
+			if a.Delivery == "content" {
+				continue
+			}
+			if a.Delivery == "config-shared" && shared != nil {
+				cf.Config, cf.Content = shared, nil
+				continue
+			}
+			if m, err := loader.ParseYAML(content); err == nil && m != nil {
+				cf.Config, cf.Content = m, nil
+				if shared == nil {
+					shared = m
+				}
+			}
+		}
+		if a.Mode == "model" {
+			dict, err := loader.LoadModelWithContext(context.Background(), details, c01Options(a.Req))
+			return c01Outcome(dict != nil, err, root)
+		}
+		p, err := loader.LoadWithContext(context.Background(), details, c01Options(a.Req))
+		return c01Outcome(p != nil, err, root)
 	}
 	switch a.Mode {
 	case "model":
@@ -343,6 +375,18 @@ func c01Rich() M {
 	}
 }
 
+var c01Deliveries = []string{"", "content", "config", "config-shared"}
+
+// c01DrawDelivery: most cases by file name (the historical default), one in five through one of the other doors
+func c01DrawDelivery(ctx *core.Ctx) string {
+	if ctx.Rng.Intn(5) != 0 {
+		return ""
+	}
+	d := c01Deliveries[1+ctx.Rng.Intn(len(c01Deliveries)-1)]
+	ctx.Count("delivery-" + d)
+	return d
+}
+
 var c01OptionNames = []string{"skip_validation", "skip_interpolation", "skip_normalization", "no_resolve_paths", "skip_consistency_check",
 	"skip_extends", "skip_include", "skip_resolve_environment", "skip_default_values", "discard_env_files"}
 
@@ -432,6 +476,22 @@ func runC01(ctx *core.Ctx) {
 		}
 	}
 
+	for _, del := range c01Deliveries[1:] {
+		for _, pos := range []string{"single", "override", "include", "extending"} {
+			for _, bits := range []int{0, 1, 1 | 4 | 16} {
+				if req := c01Positioned(pos, rich, rich); req != nil {
+					applyOptionBits(req, bits)
+					exp := ""
+					if del != "config-shared" && pos != "extending" {
+						exp = "ok" // (the extending position leaves the top-level resources of the rich document behind)
+					}
+					ctx.Count("delivery-" + del)
+					ctx.Add("c01load", c01Args{Req: *req, Delivery: del, Shape: "valid-" + del + "/" + pos, Expect: exp})
+				}
+			}
+		}
+	}
+
 	only := os.Getenv("VERIF_C01_ONLY") // development aid: run one family of streams
 	if only == "" || only == "oracle" {
 		// the named reference-cycle inputs first: if a cycle stops being detected, the replay should be a compose
@@ -443,15 +503,43 @@ func runC01(ctx *core.Ctx) {
 		c01ResetStream(ctx)
 		ctx.Wait()
 		c01Models(ctx) // stage-level correspondence (c01_models.go)
+		c01UnicityLoop(ctx) // the seq / keys loop of enforceUnicity (c01_unicity.go)
+		c01Pipe(ctx, sch, rich) // the composed stage models vs LoadModelWithContext (c01_pipe.go)
+		c01Files(ctx)           // env_file / label_file resolution on a faulty disk (c01_files.go)
 	}
 	if only == "" || only == "schema" {
 		schemacorr.Run(ctx) // gojsonschema vs Schema.conforms (harness/schema.go): the tie behind Props/C01Schema.lean
 	}
-	if only == "" || only == "oracle" {
-		c01Valid(ctx) // combinations of valid attribute spellings (c01_valid.go)
-		c01Tags(ctx, rich)
-		c01Missing(ctx)
+	if only == "repeat" {
+		c01Repeats(ctx)
+	}
+	if only == "kinds" {
 		c01Kinds(ctx, sch, rich)
+	}
+	if only == "files" {
+		c01Files(ctx)
+	}
+	if only == "unreadable" {
+		c01Unreadable(ctx)
+	}
+	if only == "names" {
+		c01Names(ctx, rich)
+	}
+	if only == "pipe" {
+		c01Pipe(ctx, sch, rich)
+	}
+	if only == "seqified" {
+		c01Seqified(ctx, sch, rich)
+	}
+	if only == "" || only == "oracle" {
+		c01Repeats(ctx) // every list of the valid catalogue with repeated elements in every arrangement (c01_repeat.go)
+		c01Valid(ctx)   // combinations of valid attribute spellings (c01_valid.go)
+		c01Tags(ctx, rich)
+		c01Names(ctx, rich)
+		c01Missing(ctx)
+		c01Unreadable(ctx)
+		c01Kinds(ctx, sch, rich)
+		c01Seqified(ctx, sch, rich) // a mapping on the way replaced by the list of its values (c01_seqified.go)
 		c01OptionLattice(ctx, sch, rich)
 		c01Bytes(ctx, rich)
 	}
@@ -480,6 +568,40 @@ var c01KindValues = []struct {
 // the `external: "true"` panic of validation.checkExternal was only reachable that way and was missed in round 1)
 var c01OptionSets = []int{0, 1, 1 | 4 | 16, 1 | 32 | 64 | 256, 2, 1 | 2}
 
+// c01MergeDocs: union of two placed documents (mappings merged key by key, lists element by element, b wins on leaves)
+func c01MergeDocs(a, b any) any {
+	switch x := a.(type) {
+	case M:
+		y, ok := b.(M)
+		if !ok {
+			return b
+		}
+		o := M{}
+		for k, v := range x {
+			o[k] = v
+		}
+		for k, v := range y {
+			if old, has := o[k]; has {
+				o[k] = c01MergeDocs(old, v)
+			} else {
+				o[k] = v
+			}
+		}
+		return o
+	case L:
+		y, ok := b.(L)
+		if !ok || len(y) != len(x) {
+			return b
+		}
+		o := make(L, len(x))
+		for i := range x {
+			o[i] = c01MergeDocs(x[i], y[i])
+		}
+		return o
+	}
+	return b
+}
+
 // (attribute path × node kind × position)
 func c01Kinds(ctx *core.Ctx, sch *c01Schema, rich M) {
 	paths := sch.paths(9)
@@ -502,7 +624,53 @@ func c01Kinds(ctx *core.Ctx, sch *c01Schema, rich M) {
 		ctx.Count("kind-" + kind)
 		ctx.Count("pos-" + pos)
 		ctx.Count(fmt.Sprintf("optset-%d", bits))
-		ctx.Add("c01load", c01Args{Req: *req, Mode: mode, Shape: "kind/" + pos + "/" + p.String() + "/" + kind})
+		ctx.Add("c01load", c01Args{Req: *req, Mode: mode, Delivery: c01DrawDelivery(ctx), Shape: "kind/" + pos + "/" + p.String() + "/" + kind})
+	}
+	// related paths: the attribute's parent holds other attributes, and the stages compare / combine siblings (`name` with
+	// `external.name`, `mem_limit` with `deploy.resources.limits.memory`, …).  One value at one path never gives two
+	// siblings the same (odd) kind: place the same value at the path AND at a path that shares its parent or grandparent.
+	byParent := map[string][]c01Path{}
+	parentOf := func(p c01Path, up int) string {
+		if len(p.Steps) <= up {
+			return ""
+		}
+		return c01Path{Steps: p.Steps[:len(p.Steps)-up]}.String() + "|"
+	}
+	for _, p := range paths {
+		byParent[parentOf(p, 1)] = append(byParent[parentOf(p, 1)], p)
+	}
+	for _, p := range paths {
+		for _, kv := range c01KindValues {
+			if !full && ctx.Rng.Intn(4) != 0 {
+				continue
+			}
+			var cands []c01Path
+			cands = append(cands, byParent[parentOf(p, 1)]...)
+			if len(p.Steps) >= 2 {
+				cands = append(cands, byParent[parentOf(p, 2)]...) // uncles: `x.name` next to `x.external.name`
+			}
+			if len(cands) < 2 {
+				continue
+			}
+			q := cands[ctx.Rng.Intn(len(cands))]
+			if q.String() == p.String() {
+				continue
+			}
+			v := kv.vals[ctx.Rng.Intn(len(kv.vals))]
+			doc, ok := c01MergeDocs(sch.place(p, v), sch.place(q, c01DeepCopy(v))).(M)
+			if !ok {
+				continue
+			}
+			pos := c01Positions[ctx.Rng.Intn(len(c01Positions))]
+			req := c01Positioned(pos, doc, rich)
+			if req == nil {
+				continue
+			}
+			bits := c01OptionSets[ctx.Rng.Intn(len(c01OptionSets))]
+			applyOptionBits(req, bits)
+			ctx.Count("kind2-" + kv.kind)
+			ctx.Add("c01load", c01Args{Req: *req, Delivery: c01DrawDelivery(ctx), Shape: "kind2/" + pos + "/" + p.String() + "+" + q.String() + "/" + kv.kind})
+		}
 	}
 	for _, p := range paths {
 		for _, kv := range c01KindValues {
@@ -571,6 +739,39 @@ func c01OptionLattice(ctx *core.Ctx, sch *c01Schema, rich M) {
 				exp = "ok"
 			}
 			ctx.Add("c01load", c01Args{Req: r, Shape: "options/" + d.name + "/" + fmt.Sprint(bits), Expect: exp})
+		}
+	}
+}
+
+// project name: unset / taken from the file / from COMPOSE_PROJECT_NAME / from the directory, valid or not — × the entry
+// points × the options that decide where the name is looked at (normalisation and interpolation on or off).  Every other
+// stream sets the name imperatively, so the "empty versus unset" branches of projectName() / load() were never entered.
+func c01Names(ctx *core.Ctx, rich M) {
+	inFile := []any{nil, "", "p", "UPPER", "-x", "a b", "${N}", "${UNSET}", 1, true, L{"p"}, M{"k": "v"}, 1.5}
+	envs := []map[string]string{nil, {"COMPOSE_PROJECT_NAME": "envname"}, {"COMPOSE_PROJECT_NAME": ""}, {"COMPOSE_PROJECT_NAME": "Bad Name"}, {"N": "fromenv"}, {"N": ""}}
+	dirs := []string{"", "proj", "UPPER Dir", "-", "..."}
+	for i, nm := range inFile {
+		for _, env := range envs {
+			for _, dir := range dirs {
+				for _, bits := range []int{0, 1, 2, 4, 1 | 2 | 4} {
+					if !ctx.Thorough() && ctx.Rng.Intn(4) != 0 {
+						continue
+					}
+					doc := M{"services": M{"a": M{"image": "busybox"}}}
+					if i > 0 {
+						doc["name"] = nm
+					}
+					file := "compose.yml"
+					if dir != "" {
+						file = dir + "/compose.yml"
+					}
+					req := core.LoadReq{Files: map[string]string{file: toYAML(doc)}, ConfigFiles: []string{file}, WorkingDir: dir, Env: env}
+					applyOptionBits(&req, bits)
+					mode := []string{"", "model", "cli"}[ctx.Rng.Intn(3)]
+					ctx.Count("name-unset-imperative")
+					ctx.Add("c01load", c01Args{Req: req, Mode: mode, Shape: fmt.Sprintf("name/%d/%s", i, modeName(mode))})
+				}
+			}
 		}
 	}
 }
@@ -827,6 +1028,86 @@ func c01Missing(ctx *core.Ctx) {
 		}
 	}
 	ctx.Note("missing-file stream: all %d subsets of %d referenced files × 3 entry points", 1<<len(names), len(names))
+}
+
+// unreadable rather than absent: a DIRECTORY where the referenced file should be (every referenced file, singly and in
+// pairs; the optional env file included: it exists, so it is not excused), and a FILE where its parent directory should
+// be (ENOTDIR: the loader's fileIsMissing counts that as absent).  Must be an error naming the path.
+func c01Unreadable(ctx *core.Ctx) {
+	all := map[string]string{
+		"compose.yml": "include:\n  - path: inc/inc.yml\n    env_file: inc/inc.env\nservices:\n  a:\n    extends:\n      file: base/base.yml\n      service: base\n" +
+			"    env_file:\n      - a.env\n      - path: opt.env\n        required: false\n    label_file:\n      - a.labels\n",
+		"over.yml":      "services:\n  a:\n    environment:\n      X: y\n",
+		"base/base.yml": "services:\n  base:\n    image: busybox\n",
+		"inc/inc.yml":   "services:\n  inc:\n    image: busybox\n",
+		"inc/inc.env":   "I=1\n",
+		"a.env":         "A=1\n",
+		"opt.env":       "O=1\n",
+		"a.labels":      "l=v\n",
+		"proj.env":      "P=1\n",
+	}
+	names := make([]string, 0, len(all))
+	for n := range all {
+		names = append(names, n)
+	}
+	sort.Strings(names)
+	build := func(dirs []string, parentFile string) map[string]string {
+		files := map[string]string{}
+		for n, c := range all {
+			files[n] = c
+		}
+		for _, d := range dirs {
+			delete(files, d)
+			files[d+"/.keep"] = ""
+		}
+		if parentFile != "" {
+			for n := range files {
+				if strings.HasPrefix(n, parentFile+"/") {
+					delete(files, n)
+				}
+			}
+			files[parentFile] = "not a directory\n"
+		}
+		return files
+	}
+	for _, mode := range []string{"", "cli", "model"} {
+		relevant := func(n string) bool {
+			switch {
+			case n == "proj.env" && mode != "cli":
+				return false
+			case mode == "model" && (n == "a.env" || n == "a.labels" || n == "opt.env"):
+				return false
+			}
+			return true
+		}
+		emit := func(files map[string]string, bad []string, what string) {
+			var bases []string
+			for _, b := range bad {
+				if relevant(b) {
+					bases = append(bases, filepath.Base(b))
+				}
+			}
+			exp := "ok"
+			if len(bases) > 0 {
+				exp = "missing:unreadable-" + what + ":" + strings.Join(bases, ",")
+			}
+			a := c01Args{Req: core.LoadReq{Files: files, ConfigFiles: []string{"compose.yml", "over.yml"}, ProjectName: "p"}, Mode: mode,
+				Shape: fmt.Sprintf("unreadable/%s/%s/%s", modeName(mode), what, strings.Join(bad, "+")), Expect: exp}
+			if mode == "cli" {
+				a.EnvFiles = []string{"proj.env"}
+			}
+			ctx.Count("unreadable-" + what)
+			ctx.Add("c01load", a)
+		}
+		for i, n := range names {
+			emit(build([]string{n}, ""), []string{n}, "dir")
+			for _, m := range names[i+1:] {
+				emit(build([]string{n, m}, ""), []string{n, m}, "dir")
+			}
+		}
+		emit(build(nil, "inc"), []string{"inc/inc.yml", "inc/inc.env"}, "parent-is-file")
+		emit(build(nil, "base"), []string{"base/base.yml"}, "parent-is-file")
+	}
 }
 
 // ---------------------------------------------------------------- byte-level mutations
